@@ -437,6 +437,13 @@ analyze_extent (pixman_image_t       *image,
 	if (image->bits.width >= 0x7fff	|| image->bits.height >= 0x7fff)
 	    return FALSE;
 
+	/* Without pixels there is nothing to repeat (repeat() would divide
+	 * by the size or never terminate); REPEAT_NONE stays transparent.
+	 */
+	if ((image->bits.width <= 0 || image->bits.height <= 0) &&
+	    image->common.repeat != PIXMAN_REPEAT_NONE)
+	    return FALSE;
+
 	if ((image->common.flags & FAST_PATH_ID_TRANSFORM) == FAST_PATH_ID_TRANSFORM &&
 	    extents->x1 >= 0 &&
 	    extents->y1 >= 0 &&
